@@ -188,6 +188,8 @@ def scan_case():
       'form': st.sampled_from(['class', 'class', 'method', 'class_methods']),
       # the documented fast path that skips the broadcast-constancy trace
       'cci': st.sampled_from([True, True, False]),
+      # `length` given explicitly or inferred from the scanned input
+      'infer_length': st.booleans(),
   })
 
 
@@ -250,6 +252,8 @@ def scan_vs_loop(case, ctx):
                unroll=case['unroll'])
     # documented: only with the constancy check can broadcast collections be
     # produced (initialised) inside the loop
+    if case.get('infer_length'):
+      del skw['length']
     cci = case.get('cci', True) or bool(broadcast)
     if not cci:
       skw['check_constancy_invariants'] = False
@@ -411,7 +415,9 @@ def scan_vs_loop(case, ctx):
   used_roles = {roles[c] for c in cols}
   ctx.note(labels=[f'n{n}', 'rev' if case['reverse'] else 'fwd',
                    f'form-{form}'] + ([] if cci else
-                                      ['no-constancy-check']) +
+                                      ['no-constancy-check']) + (
+                                          ['inferred-length'] if case.get(
+                                              'infer_length') else []) +
            sorted(f'{c}:{roles[c]}' for c in cols),
            nontrivial=(len(used_roles) >= 2 and n >= 2) or case['reverse']
            or any(a != 0 for a in variable_axes.values())
